@@ -41,6 +41,15 @@ CLAIMED["C13"] = (
     "Decides, for all 40+ call sites that may reach a Storage method in the non-back-end packages, that the error is tested or returned and that no success return is reachable from its failure edge except over errors.Is(ErrNotFound) or a successful reload; that each creator returns a fresh payload successfully only after payload.Store succeeded or WithSkipStorage; that the fetch response comes from a persisted record; that a token is removed before authorising; and that Storage.Remove touches only the loaded token and the roots under reinitialisation. Back-end atomicity and multi-fault sequences are not decided.",
     _T, "DESIGN.md 5/C13")
 
+CLAIMED["C08"] = (
+    "abstract execution of the loop-free decision function over the finite order-type abstraction (85 states, exhaustive) against the property's table + linear time-form propagation of the minted windows + literal/field-flow constraints + guard-cut",
+    "Decides the shape of root rotation: the decision function's leaf for every nil combination and every ordering (<,=,>) of the four stored instants against now agrees with the property's table (ties accept either refinement; three safety post-conditions everywhere); minted windows have the forms now+nbSkew / now+lifetime+naSkew, shifted at both ends by half of the current root's remaining life only when minting next, and stored timestamps are the shifted ones; minted roots are self-signed CAs from one key pair; the result is wired carried-or-new current / new next, the no-change outcome writes nothing, the stored object is the returned one; reinitialisation removes first; Store refuses incomplete sets. That current is valid 'at that moment' in wall-clock terms and multi-call histories are not decided.",
+    _T, "DESIGN.md 5/C08")
+CLAIMED["C09"] = (
+    "the four structural premises of the continuity theorem: exhaustive decision table leaves, shift form, per-root leaf validity (C04), and guard-cut of the four chain filters on both TLS sides",
+    "Decides only the premises, each necessary: every single-root outcome of the decision table carries an existing root (no trust reset); the successor window starts at the midpoint of the carried root's remaining life; nodes get one certificate per server root with the root's own validity; client and server use a bundle only if leaf and CA are inside their validity at one clock reading, with exactly those four comparisons. The theorem itself (cadence bounds imply a valid, trusted chain at every instant) is real-time arithmetic and is NOT decided.",
+    _T, "DESIGN.md 5/C09")
+
 _PENDING = "check not built yet in this round (design in DESIGN.md section 5); will be claimed once its rules are exact on the repaired tree"
 for _p in ["C01","C02","C03","C04","C06","C07","C08","C09","C10","C11","C12","C13","C14","C15","C16","C17","C18","C19","C20"]:
     if _p not in CLAIMED:
